@@ -11,7 +11,7 @@ fn any_small() -> Option<i32> { if kani::any() { let v: i8 = kani::any(); kani::
 
 #[kani::proof]
 #[kani::unwind(6)]
-fn bounded_vany_vall() {
+fn bounded_agg_vany_vall() {
     let a: [Option<bool>; N] = [any_ob(), any_ob(), any_ob(), any_ob()];
     let n: usize = kani::any();
     kani::assume(n <= N);
@@ -25,7 +25,7 @@ fn bounded_vany_vall() {
 
 #[kani::proof]
 #[kani::unwind(6)]
-fn bounded_counts_sum_extrema() {
+fn bounded_agg_counts_sum_extrema() {
     let a: [Option<i32>; N] = [any_small(), any_small(), any_small(), any_small()];
     let n: usize = kani::any();
     kani::assume(n <= N);
@@ -49,4 +49,75 @@ fn bounded_counts_sum_extrema() {
     assert!(s.iter().cloned().vargmin() == amn);
     assert!(s.iter().cloned().vfirst() == s.iter().cloned().find(|x| x.is_some()));
     assert!(s.iter().cloned().vlast() == s.iter().rev().cloned().find(|x| x.is_some()));
+}
+
+// ---- C08, bounded: the NaN encoding and the None encoding of one logical series give the same results, and an inserted
+// null changes nothing.  Series of length <= 3 over {null, -2..2} (exactly representable floats).
+// (vvar / vstd are not compared here: Kani over-approximates `f64::powi` by a nondeterministic value, so two identical calls
+// may differ in the model; their agreement is the Verus `agg` contract over vals().)
+fn same(a: f64, b: f64) -> bool { (a.is_nan() && b.is_nan()) || a == b }
+fn same_opt(a: Option<f64>, b: Option<f64>) -> bool {
+    match (a, b) { (None, None) => true, (Some(x), Some(y)) => same(x, y), _ => false }
+}
+
+#[kani::proof]
+#[kani::unwind(6)]
+fn bounded_nulls_nan_none_agree() {
+    const M: usize = 3;
+    let mut f: [f64; M + 1] = [f64::NAN; M + 1];
+    let mut o: [Option<f64>; M + 1] = [None; M + 1];
+    let mut o_ins: [Option<f64>; M + 1] = [None; M + 1];
+    let n: usize = kani::any();
+    kani::assume(n <= M);
+    let p: usize = kani::any();          // where the extra null goes
+    kani::assume(p <= n);
+    let mut i = 0;
+    while i < n {
+        if kani::any() {
+            let v: i8 = kani::any();
+            kani::assume(-2 <= v && v <= 2);
+            f[i] = v as f64;
+            o[i] = Some(v as f64);
+        }
+        o_ins[if i < p { i } else { i + 1 }] = o[i];
+        i += 1;
+    }
+    let (fs, os, is) = (&f[..n], &o[..n], &o_ins[..n + 1]);
+    // the two encodings
+    assert!(fs.titer().count_valid() == os.titer().count_valid());
+    assert!(same_opt(fs.titer().vsum(), os.titer().vsum()));
+    assert!(same(fs.titer().vmean(), os.titer().vmean()));
+    assert!(same_opt(fs.titer().vmax(), os.titer().vmax()));
+    assert!(same_opt(fs.titer().vmin(), os.titer().vmin()));
+    // an inserted null
+    assert!(is.titer().count_valid() == os.titer().count_valid());
+    assert!(same_opt(is.titer().vsum(), os.titer().vsum()));
+    assert!(same(is.titer().vmean(), os.titer().vmean()));
+    assert!(same_opt(is.titer().vmax(), os.titer().vmax()));
+    assert!(same_opt(is.titer().vmin(), os.titer().vmin()));
+}
+
+// ---- NOT REGISTERED in any harness group: CBMC did not finish this harness within 15 minutes (std's select_nth_unstable_by),
+// kept for reference.  C08 / C12, bounded: quantiles ignore nulls.  Two integer-valued elements and one inserted null (the smallest input on
+// which the upper-half selection has a head and a pivot); q in {0.25, 0.75}, methods Lower and Higher.
+#[kani::proof]
+#[kani::unwind(6)]
+fn slow_quantile_ignores_nulls() {
+    use tea_agg::*;
+    let a: [i32; 2] = [kani::any(), kani::any()];
+    kani::assume(-4 <= a[0] && a[0] <= 4 && -4 <= a[1] && a[1] <= 4);
+    let p: usize = kani::any();
+    kani::assume(p <= 2);
+    let clean: [Option<i32>; 2] = [Some(a[0]), Some(a[1])];
+    let mut padded: [Option<i32>; 3] = [None; 3];
+    padded[if p == 0 { 1 } else { 0 }] = Some(a[0]);
+    padded[if p == 2 { 1 } else { 2 }] = Some(a[1]);
+    let (lo, hi) = if a[0] <= a[1] { (a[0] as f64, a[1] as f64) } else { (a[1] as f64, a[0] as f64) };
+    let upper: bool = kani::any();
+    let q = if upper { 0.75 } else { 0.25 };
+    // with two valid elements both quartiles lie strictly between them: Lower is the smaller, Higher the larger
+    assert!(same(clean.vquantile(q, QuantileMethod::Lower).unwrap(), lo));
+    assert!(same(padded.vquantile(q, QuantileMethod::Lower).unwrap(), lo));
+    assert!(same(clean.vquantile(q, QuantileMethod::Higher).unwrap(), hi));
+    assert!(same(padded.vquantile(q, QuantileMethod::Higher).unwrap(), hi));
 }
